@@ -26,7 +26,7 @@ fn main() {
     let budget = std::env::var("VERIF_BUDGET_S")
         .ok()
         .and_then(|s| s.parse().ok())
-        .map_or(if tier.thorough() { Duration::from_secs(600) } else { Duration::from_secs(40) }, Duration::from_secs);
+        .map_or(if tier.thorough() { Duration::from_secs(900) } else { Duration::from_secs(120) }, Duration::from_secs);
     let code = vh::dispatch(&id, tier, replay.as_deref(), budget);
     std::process::exit(code);
 }
